@@ -70,6 +70,11 @@ def main(argv):
             run.prop = prop
             rg, _ = run.validate(spec, good, 0)
             rb, _ = run.validate(spec, bad, 0)
+            # rejections that are listed known findings (F9: uint8 value containers under C11) are not failures of the good trace
+            def unlisted(path, nums):
+                ev = run.lines(path, nums)
+                return [i for i in nums if run.classify(ev[i]) is None]
+            rg, rb = unlisted(good, rg), unlisted(bad, rb)
             ok = rg == [] and n in rb
             failures += 0 if ok else 1
             print("   %-6s %-12s %s: good trace %d rejections; corrupted line %d -> rejected lines %s  %s" % (
